@@ -338,8 +338,8 @@ Definition body_ok (nm : str) (body : list stmt) : bool :=
 (* the order of the port lines of a section the connectivity proof is carried out for: the .inputs lines,
    then the .outputs lines, then the .clock lines, then the other statements; comment lines (and blank
    lines, which give no statement) may stand anywhere between them.  The reader itself accepts the port lines
-   of the header in any order and number (cl_hdr); a port named in an .outputs line and in a later .inputs
-   line is the open finding C18-inout-outputs-first *)
+   of the header in any order and number (cl_hdr), a port named in an .outputs line and in a later .inputs
+   line becoming INOUT (do_input / input_io) *)
 Fixpoint hdr_sorted (ph : nat) (ss : list stmt) : bool :=
   match ss with
   | [] => true
